@@ -8,6 +8,7 @@ pub mod sched;
 pub mod c04;
 pub mod c09;
 pub mod c18;
+pub mod c22;
 pub mod c_engine;
 pub mod c_fd;
 pub mod fd;
@@ -30,6 +31,7 @@ pub fn dispatch(id: &str, ctx: &mut ev::Ctx) -> bool {
         "C16" => c_fd::run(ctx, "C16"),
         "C17" => c_fd::run(ctx, "C17"),
         "C18" => c18::run(ctx),
+        "C22" => c22::run(ctx),
         _ => return false,
     }
     true
